@@ -13,7 +13,9 @@ Definition limits_now : limits :=
      l_k_allocates := fb12 search_reserves_by_k true |}.
 
 Lemma C12_facts_ok :
-  limits_now = limits_safe /\ space_count = Known 3 /\ random_node_total = Known true /\ process_dispatch_shape = Known true.
+  limits_now = limits_safe /\ space_count = Known 3 /\ random_node_total = Known true /\ process_dispatch_shape = Known true /\
+  (* the cosine space hands |1 - cos| to the index: the priority queues panic on a negative distance *)
+  space_dispatch_shape = Known true.
 Proof. repeat split; reflexivity. Qed.
 
 (* for every sequence of write requests (single, batch, partition-level; any ids, vectors and metadata) and every
